@@ -10,7 +10,9 @@ A netlist description:
                                              blocks, again after m2, ..., and at the end (the circuit is extended in between)}
 a node may carry 'box': b  -> it is instantiated INSIDE the user-defined structural block box<b> (created at its first member), so
 a later member extends an existing structural child and HWSystem.allLeaves() order differs from the instantiation order.
-kinds: buf not and2 or2 mux2 const catm catl bitsl xor2 (library blocks), gate (a user-defined leaf: k inputs, m outputs,
+a node / reg may carry 'inherit': True -> the block is an instance of a trivial SUBCLASS of the block class (class Sub(Not): pass),
+i.e. propagate / clock are inherited.  Blocks inside a box are named m0, m1, .. per box, so instance names repeat across parents.
+kinds: buf not and2 or2 mux2 const catm catl bitsl xor2 add (library blocks; xor2 and add are structural), gate (a user-defined leaf: k inputs, m outputs,
 out_o = (xor of the inputs) + o + 1), and isink / isrc: the same function, but the leaf is the sink / source of a py4hw.Interface:
 its outputs are the interface's back-channel (sink-to-source) / forward (source-to-sink) wires, and those of its inputs that no
 other interface owns are the interface's forward / back-channel wires (ports created by addInterfaceSink / addInterfaceSource)."""
@@ -57,6 +59,20 @@ def gate_class():
 
 
 IF_KINDS = ('isink', 'isrc')
+STRUCT_KINDS = ('xor2', 'add')
+_sub = {}
+
+
+def cls_of(cls, inherit):
+    """the class itself, or a subclass that defines nothing (behaviour inherited from the base class)"""
+    if not inherit: return cls
+    if cls not in _sub: _sub[cls] = type('Sub' + cls.__name__, (cls,), {})
+    return _sub[cls]
+
+
+def is_comb_leaf(o):
+    """a block without children that has a propagate method, however it got it (own or inherited)"""
+    return len(o.children) == 0 and callable(getattr(o, 'propagate', None))
 
 
 def ownership(spec):
@@ -106,7 +122,7 @@ class Net:
         self.done = []                  # items instantiated so far, in order
         self.obj = {}                   # item -> py4hw object
         self.leaf_items = []            # combinational blocks in instantiation order (= leaf index when none is structural)
-        self.has_struct = any(nd['kind'] == 'xor2' for nd in spec['nodes'])
+        self.has_struct = any(nd['kind'] in STRUCT_KINDS for nd in spec['nodes'])
         self.has_box = any(nd.get('box') is not None for nd in spec['nodes'])
 
     def instantiate(self, items):
@@ -116,33 +132,35 @@ class Net:
                 it = tuple(it)
                 if it[0] == 'r':
                     rg = self.spec['regs'][it[1]]
-                    self.obj[it] = py4hw.Reg(hw, 'r%d' % it[1], W[rkey(rg['d'])], W[('q', it[1])])
+                    self.obj[it] = cls_of(py4hw.Reg, rg.get('inherit'))(hw, 'r%d' % it[1], W[rkey(rg['d'])], W[('q', it[1])])
                 else:
                     j = it[1]; nd = self.spec['nodes'][j]; k = nd['kind']; name = 'u%d' % j
                     top = hw
                     if nd.get('box') is not None:
                         b = nd['box']
                         if b not in self.box: self.box[b] = _gate[2](top, 'box%d' % b)
-                        hw = self.box[b]
+                        hw = self.box[b]; name = 'm%d' % len(hw.children)       # names repeat across boxes
                     ins = [W[rkey(r)] for r in nd['ins']]
                     outs = [W[('n', j, o)] for o in range(len(nd['outs']))]
-                    if k == 'buf': ob = py4hw.Buf(hw, name, ins[0], outs[0])
-                    elif k == 'not': ob = py4hw.Not(hw, name, ins[0], outs[0])
-                    elif k == 'and2': ob = py4hw.And2(hw, name, ins[0], ins[1], outs[0])
-                    elif k == 'or2': ob = py4hw.Or2(hw, name, ins[0], ins[1], outs[0])
-                    elif k == 'mux2': ob = py4hw.Mux2(hw, name, ins[0], ins[1], ins[2], outs[0])
-                    elif k == 'const': ob = py4hw.Constant(hw, name, nd['const'], outs[0])
-                    elif k == 'catm': ob = py4hw.ConcatenateMSBF(hw, name, ins, outs[0])
-                    elif k == 'catl': ob = py4hw.ConcatenateLSBF(hw, name, ins, outs[0])
-                    elif k == 'bitsl': ob = py4hw.BitsLSBF(hw, name, ins[0], outs)
-                    elif k == 'gate': ob = gate_class()(hw, name, ins, outs)
+                    C = lambda cls: cls_of(cls, nd.get('inherit'))
+                    if k == 'buf': ob = C(py4hw.Buf)(hw, name, ins[0], outs[0])
+                    elif k == 'not': ob = C(py4hw.Not)(hw, name, ins[0], outs[0])
+                    elif k == 'and2': ob = C(py4hw.And2)(hw, name, ins[0], ins[1], outs[0])
+                    elif k == 'or2': ob = C(py4hw.Or2)(hw, name, ins[0], ins[1], outs[0])
+                    elif k == 'mux2': ob = C(py4hw.Mux2)(hw, name, ins[0], ins[1], ins[2], outs[0])
+                    elif k == 'const': ob = C(py4hw.Constant)(hw, name, nd['const'], outs[0])
+                    elif k == 'catm': ob = C(py4hw.ConcatenateMSBF)(hw, name, ins, outs[0])
+                    elif k == 'catl': ob = C(py4hw.ConcatenateLSBF)(hw, name, ins, outs[0])
+                    elif k == 'bitsl': ob = C(py4hw.BitsLSBF)(hw, name, ins[0], outs)
+                    elif k == 'gate': ob = C(gate_class())(hw, name, ins, outs)
                     elif k == 'xor2': ob = py4hw.Xor2(hw, name, ins[0], ins[1], outs[0])      # structural: 4 Nand2 = 8 leaves
+                    elif k == 'add': ob = py4hw.Add(hw, name, ins[0], ins[1], outs[0])        # structural: Constant ci + AddCarryIn add
                     elif k in IF_KINDS:
                         via = (j, 'fwd' if k == 'isink' else 'back')       # in-refs that are ports of the interface itself
                         extra = []
                         for r in nd['ins']:
                             if self.own.get(rkey(r)) != via and all(W[rkey(r)] is not x for x in extra): extra.append(W[rkey(r)])
-                        ob = _gate[1](hw, name, k, self.itf[j], extra, ins, outs)
+                        ob = C(_gate[1])(hw, name, k, self.itf[j], extra, ins, outs)
                     else: raise ValueError(k)
                     hw = top
                     self.obj[it] = ob
@@ -152,7 +170,7 @@ class Net:
     # ---- the leaf dependency graph, read off the live objects the way findFirstDependentPosition does
     def leaves(self):
         """the propagatable leaves in HWSystem.allLeaves() order: the initial list of Simulator.topologicalSort"""
-        return [o for o in self.hw.allLeaves() if o.isPropagatable()]
+        return [o for o in self.hw.allLeaves() if is_comb_leaf(o)]
 
     def live_graph(self):
         """succ table over leaves(), read from the WIRES: leaf x feeds leaf y when a wire whose source port belongs to x has a sink
@@ -168,7 +186,23 @@ class Net:
             src = w.getSource() if hasattr(w, 'getSource') else None
             if src is None or id(src.parent) not in idx: continue
             for sp in w.getSinks():
-                if sp.parent.isPropagatable(): tbl[idx[id(src.parent)]].append(idx.get(id(sp.parent), -1))
+                if id(sp.parent) in idx: tbl[idx[id(src.parent)]].append(idx[id(sp.parent)])
+        return tbl
+
+    def port_graph(self):
+        """succ table over leaves() from the PORT OBJECTS of the leaves alone: leaf x feeds leaf y when x has an OutPort object and y
+        an InPort object on the same wire (whatever list the port is filed in, whatever was registered in Wire.source / Wire.sinks)"""
+        from py4hw.base import InPort, OutPort
+        leaves = self.leaves()
+        drv, rd = {}, {}
+        for i, o in enumerate(leaves):
+            for p in list(o.inPorts) + list(o.outPorts):
+                if p.wire is None: continue
+                if isinstance(p, OutPort): drv.setdefault(id(p.wire), []).append(i)
+                elif isinstance(p, InPort): rd.setdefault(id(p.wire), []).append(i)
+        tbl = [[] for _ in leaves]
+        for w, ds in drv.items():
+            for d in ds: tbl[d] += rd.get(w, [])
         return tbl
 
     def code_graph(self):
@@ -194,7 +228,7 @@ class Net:
     def all_leaves_order(self):
         """flat netlists: hw.allLeaves() restricted to propagatables, as block indices (must be 0..n-1: instantiation order)"""
         idx = {id(self.obj[it]): i for i, it in enumerate(self.leaf_items)}
-        return [idx.get(id(o), -1) for o in self.hw.allLeaves() if o.isPropagatable()]
+        return [idx.get(id(o), -1) for o in self.leaves()]
 
     def get_simulator(self):
         """('ok', [leaf indices of Simulator.propagatables]) | ('raise', message, kind, leaf) with kind 'limit' (pass limit),
@@ -285,6 +319,7 @@ def node_fn(nd, vals, widths):
         v = 0
         for x in vals: v ^= x
         r = [v + o + 1 for o in range(len(outs))]
+    elif k == 'add': r = [vals[0] + vals[1]]
     elif k == 'xor2': r = [vals[0] ^ vals[1]]          # inputs and output have the same width by construction
     else: raise ValueError(k)
     return [mask(x, w) for x, w in zip(r, outs)]
@@ -317,11 +352,11 @@ def denote(spec, present, base):
 
 
 # ------------------------------------------------------------------ generators
-def rand_netlist(rng, n, flavour='dag', n_in=2, n_regs=0, lib_only=True, struct=False, itf=False, boxes=0):
+def rand_netlist(rng, n, flavour='dag', n_in=2, n_regs=0, lib_only=True, struct=False, itf=False, boxes=0, inherit=False):
     """random netlist whose combinational part is a DAG in the hidden order 0..n-1, then made cyclic / self-looping on
     request; instantiation order random (sometimes exactly reversed = worst case, sometimes dataflow order)."""
     spec = {'inputs': [rng.randint(1, 5) for _ in range(n_in)], 'nodes': [], 'regs': [], 'order': [], 'split': None}
-    for k in range(n_regs): spec['regs'].append({'d': None, 'w': rng.randint(1, 4)})
+    for k in range(n_regs): spec['regs'].append({'d': None, 'w': rng.randint(1, 4), 'inherit': bool(inherit and rng.random() < .5)})
     pool_in = [['i', k] for k in range(n_in)] + [['q', k] for k in range(n_regs)]
     outs_so_far = []
     def pick():
@@ -329,7 +364,7 @@ def rand_netlist(rng, n, flavour='dag', n_in=2, n_regs=0, lib_only=True, struct=
             return list(rng.choice(outs_so_far[-6:] if rng.random() < .6 else outs_so_far))
         return list(rng.choice(pool_in))
     kinds = ['buf', 'not', 'and2', 'or2', 'and2', 'or2', 'mux2', 'const', 'catm', 'catl', 'bitsl'] + ([] if lib_only else ['gate', 'gate'])
-    if struct: kinds += ['xor2', 'xor2']
+    if struct: kinds += ['xor2', 'xor2', 'add', 'add']
     if itf: kinds += ['isink', 'isink', 'isink', 'isrc']
     for j in range(n):
         k = rng.choice(kinds); nd = {'kind': k, 'ins': [], 'outs': [rng.randint(1, 5)], 'const': 0}
@@ -348,10 +383,13 @@ def rand_netlist(rng, n, flavour='dag', n_in=2, n_regs=0, lib_only=True, struct=
             else: nd['ins'] = [r]; nd['outs'] = [1] * ref_width(spec, r)
         elif k in ('gate', 'isink', 'isrc'):
             nd['ins'] = [pick() for _ in range(rng.randint(0 if k == 'gate' else 1, 4))]; nd['outs'] = [rng.randint(1, 4) for _ in range(rng.randint(1, 3))]
+        elif k == 'add':
+            nd['ins'] = [pick(), pick()]; nd['outs'] = [max(ref_width(spec, r) for r in nd['ins']) + rng.randint(0, 1)]
         elif k == 'xor2':
             a = pick(); same = [r for r in pool_in + outs_so_far if ref_width(spec, r) == ref_width(spec, a)]
             nd['ins'] = [a, list(rng.choice(same))]; nd['outs'] = [ref_width(spec, a)]
         if boxes and rng.random() < .6: nd['box'] = rng.randrange(boxes)
+        if inherit and nd['kind'] not in STRUCT_KINDS and rng.random() < .5: nd['inherit'] = True
         spec['nodes'].append(nd)
         for o in range(len(nd['outs'])): outs_so_far.append(['n', j, o])
     for rg in spec['regs']:
@@ -393,7 +431,8 @@ def tiny_graph(n, edges, variant=0):
     spec = {'inputs': [3], 'nodes': [], 'regs': [], 'order': [['n', j] for j in range(n)], 'split': None}
     for j in range(n):
         ins = [['n', i, 0] for i in range(n) if (i, j) in edges] + [['i', 0]]
-        spec['nodes'].append({'kind': 'isink' if (variant and j % 2 == 1) else 'gate', 'ins': ins, 'outs': [3], 'const': 0})
+        spec['nodes'].append({'kind': 'isink' if (variant and j % 2 == 1) else 'gate', 'ins': ins, 'outs': [3], 'const': 0,
+                              'inherit': bool(variant and j % 2 == 0)})
     return spec
 
 
